@@ -240,7 +240,9 @@ def dprojectOp (w : List String) : String :=
         if !accepted rt then "rejected"
         else if !compatible wt rt then "incompatible"
         else match project wt rt v with
-          | .ok pv => s!"ok {showVal pv} {(deriveEncode wt v).length} {flagsOrDash (flagsTy false rt pv)}"
+          | .ok pv =>
+            let hz := if !benignP true false wt rt v then "f5" else if !benignP false true wt rt v then "k5" else "-"
+            s!"ok {showVal pv} {(deriveEncode wt v).length} {flagsOrDash (flagsTy false rt pv)} {hz}"
           | .unknown => "err variant"
           | .bad => "undef"
     | .error e, _ => e
